@@ -266,6 +266,55 @@ def tf_no_else_after_jump(root):
     _rewrite_all(root, _NoElseAfterJump)
 
 
+class _SplitIf(ast.NodeTransformer):
+    """`if a and b: X` (no else) -> `if a: if b: X`."""
+
+    def visit_If(self, n):
+        self.generic_visit(n)
+        if not n.orelse and isinstance(n.test, ast.BoolOp) and isinstance(n.test.op, ast.And) and len(n.test.values) == 2:
+            return ast.If(test=n.test.values[0], body=[ast.If(test=n.test.values[1], body=n.body, orelse=[])], orelse=[])
+        return n
+
+
+class _UpdateToSetitem(ast.NodeTransformer):
+    """module level `X.update({k: v, ...})` -> `X[k] = v` ..."""
+
+    def visit_Module(self, m):
+        out = []
+        for s in m.body:
+            if isinstance(s, ast.Expr) and isinstance(s.value, ast.Call) and isinstance(s.value.func, ast.Attribute) \
+                    and s.value.func.attr == 'update' and len(s.value.args) == 1 and isinstance(s.value.args[0], ast.Dict) \
+                    and isinstance(s.value.func.value, ast.Name):
+                for k, v in zip(s.value.args[0].keys, s.value.args[0].values):
+                    out.append(ast.Assign(targets=[ast.Subscript(value=ast.Name(id=s.value.func.value.id, ctx=ast.Load()),
+                                                                 slice=k, ctx=ast.Store())], value=v, lineno=s.lineno))
+            else:
+                out.append(s)
+        m.body = out
+        return m
+
+
+class _ImportStyle(ast.NodeTransformer):
+    """`from pyasn1.type import univ` -> `import pyasn1.type.univ as univ`."""
+
+    def visit_ImportFrom(self, n):
+        if n.module in ('pyasn1.type', 'pyasn1.compat') and n.level == 0:
+            return [ast.Import(names=[ast.alias(name='%s.%s' % (n.module, a.name), asname=a.asname or a.name)]) for a in n.names]
+        return n
+
+
+def tf_split_if(root):
+    _rewrite_all(root, _SplitIf)
+
+
+def tf_update_to_setitem(root):
+    _rewrite_all(root, _UpdateToSetitem)
+
+
+def tf_import_style(root):
+    _rewrite_all(root, _ImportStyle)
+
+
 class _AddLog(ast.NodeTransformer):
     def visit_If(self, node):
         self.generic_visit(node)
@@ -313,6 +362,9 @@ T('S-format-messages', tf_format_messages)
 T('S-sort-methods', tf_sort_methods)
 T('S-else-after-jump', tf_else_after_jump)
 T('S-no-else-after-jump', tf_no_else_after_jump)
+T('S-split-if', tf_split_if)
+T('S-update-to-setitem', tf_update_to_setitem)
+T('S-import-style', tf_import_style)
 T('S-add-log', tf_add_log)
 T('S-respell', tf_respell_literals)
 
